@@ -25,9 +25,11 @@ def sh(cmd, cwd, env=None, timeout=900):
 
 
 def main():
-    wt = sys.argv[1].rstrip("/")
+    args = [a for a in sys.argv[1:] if not a.startswith("--tag=")]
+    tag = next((a[6:] for a in sys.argv[1:] if a.startswith("--tag=")), "")
+    wt = args[0].rstrip("/")
     prop = os.path.basename(wt)
-    names = sys.argv[2:] or sorted(d for d in os.listdir(os.path.join(wt, "out")) if re.match(r"m\d+$", d))
+    names = args[1:] or sorted(d for d in os.listdir(os.path.join(wt, "out")) if re.match(r"m\d+$", d))
     env = {"PYTHONPATH": wt, "PYTHONDONTWRITEBYTECODE": "1"}
     for name in names:
         d = os.path.join(wt, "out", name)
@@ -56,7 +58,7 @@ def main():
         res["confirmed"] = ok
         print(json.dumps({k: v for k, v in res.items() if k != "demo_mutant_tail"}))
         if ok:
-            dest = os.path.join(VERIF, "seeded", f"{prop}-{name}")
+            dest = os.path.join(VERIF, "seeded", f"{prop}-{tag}{name}")
             os.makedirs(dest, exist_ok=True)
             for fn in ("patch.diff", "demo.py", "notes.md"):
                 if os.path.exists(os.path.join(d, fn)):
